@@ -39,6 +39,14 @@ Round 4 (drawings next to the library's resolution, all opt-in classes of G-path
 For these classes ONE root symptom is reported per geometry (distinct points welded / closed paths lost /
 enclosure tree / arc off its circle) and the reads computed from it are counted as its consequences.
 
+Round 5 (seed C14-r4-1):
+  tf=similarity_near_one         read - transform - read again with similarities whose factor is 1 +- {1e-4 ... 1e-9}
+                                 (no / equally small / ordinary rotation and offset; apply_transform, apply_scale,
+                                 vertex assignment; alone, after an ordinary step, two in a row), area and length
+                                 always among the values read before; totals judged at 2e-11 (measured error < 1e-13)
+  sym=differs_from_polygons_full every judgement: the total area against the sum of the full polygons of the SAME
+                                 object (exact also for arcs)
+
 tf classes: identity, near_identity, rigid, similarity (0.5 ... 1e3), mirror_axis, mirror_rot and
 similarity_tiny (change of units about the origin, 1e-6 ... 1e-9, always the last step).  The two
 geometry tags say on which side of the library's absolute constants the transformed drawing is
@@ -76,7 +84,10 @@ RULE = (
     "3e-6..5e-4 of the diagonal at float positions, nested curves with a gap of 1e-4..6e-4 of the radius; "
     "histories of ordinary drawings may end with a change of units 1e5..1e12 or a translation by 1e5..5e5 "
     "diagonals; dxf exports of drawings that declare a unit; the exported dict re-imported through "
-    "dict_to_path, load_path, load or the constructor. distinct = distinct (entity lists, vertex bytes, history); non-trivial = "
+    "dict_to_path, load_path, load or the constructor. One presentation in six gets a read-transform-read history "
+    "with a similarity of factor 1 +- 1e-4..1e-9 (area and length always read before; alone, after an ordinary "
+    "step or two in a row), totals judged at 2e-11; the total area is always compared with the sum of the full "
+    "polygons of the same object. distinct = distinct (entity lists, vertex bytes, history); non-trivial = "
     "more entities than rings or nested rings or a non-identity history."
 )
 ANCHORS = [
@@ -130,6 +141,9 @@ ASSUMPTIONS = [
     "a DXF round trip of a drawing with extents above 2e9 is not judged (one ulp of a coordinate is then "
     "comparable to the finest merge grid, 0.1), nor are text round trips of arcs whose radius exceeds 100 diagonals",
     "trimesh.load(kwargs) returns a Scene holding the one geometry (general behaviour of load, also for meshes)",
+    "length (lines and three point arcs) and the area of polygonal input are exact up to float64 rounding (measured "
+    "< 1e-13 relative on ordinary drawings): after a similarity next to the identity they are judged at 2e-11; "
+    "Path2D.area is the sum of the areas of polygons_full of the same object (judged at 1e-12 + conditioning)",
 ]
 EXHAUSTIVE = {"quick": False, "thorough": False}
 
@@ -172,6 +186,21 @@ SEG_ANGLE = 0.08  # res_path.seg_angle (documented discretisation resolution)
 # circular-segment area
 ARC_RTOL = 2.0e-3
 RTOL = 1e-9
+
+
+# similarities next to the identity (a calibration / shrinkage factor, a conversion between nearly equal
+# units, a product of factors that should cancel): scale 1 +- NEAR_ONE_EPS.  Anything that treats such a
+# matrix as rigid "within tolerance" leaves values that are wrong by the step: the totals are judged at
+# NEAR_ONE_RTOL, well below the smallest step (measured float error of the exact totals: < 1e-13)
+NEAR_ONE_EPS = (1e-4, 1e-5, 4e-6, 1e-6, 1e-7, 1e-8, 1e-9)
+NEAR_ONE_RTOL = 2e-11
+_MAXIMA = {}
+
+
+def _note_max(run, name, value):
+    if float(value) > _MAXIMA.get(name, -1.0):
+        _MAXIMA[name] = float(value)
+        run.note(name, float(value))
 
 
 class Exc:
@@ -685,12 +714,25 @@ def judge(ctx, obs, M=None, pres=None):
         if len(pf) == len(shells) and sorted(seen) != sorted(shells) and len(seen) == len(pf):
             ctx.bad("polygons_full", "wrong_shells", "full polygons are not built on the shells", got=sorted(seen), want=sorted(shells))
     # ---- totals
+    # (histories with similarities next to the identity judge the totals well below the step: rtol_total)
+    rtot = sl.get("rtol_total", rtol)
     if ok("area"):
-        tol = rtol * max(exp_area, s * s) + arc_tol_area
+        tol = rtot * max(exp_area, s * s) + arc_tol_area
         if abs(obs["area"] - exp_area) > tol:
             ctx.bad("area", "wrong_value", "total area differs from shells minus holes", got=float(obs["area"]), want=exp_area, tol=tol)
+        elif sl.get("rtol_total") and not D.has_arc:
+            _note_max(run, "near_one_max_relative_error_area_lines", abs(obs["area"] - exp_area) / max(exp_area, s * s))
+    if ok("area") and ok("polygons_full") and all(p is not None and hasattr(p, "area") for p in obs["polygons_full"]):
+        # the total of one object against the regions of the SAME object (the total is their sum): exact also
+        # for arcs, where the polygonisation hides everything below 2e-3 of the arc area from the check above
+        tot = math.fsum(float(p.area) for p in obs["polygons_full"])
+        # (far from the origin the regions themselves carry 2e-14 x conditioning of rounding: see slack["rtol"])
+        if abs(float(obs["area"]) - tot) > (1e-12 + max(0.0, rtol - RTOL)) * max(abs(tot), s * s):
+            ctx.bad("area", "differs_from_polygons_full", "total area is not the sum of the areas of the full polygons "
+                    "of the same path", got=float(obs["area"]), polygons=tot)
+        run.count("area_vs_own_polygons")
     if ok("length"):
-        tol = rtol * exp_len + s_len * s
+        tol = rtot * exp_len + s_len * s
         if abs(obs["length"] - exp_len) > tol:
             extra = (float(obs["length"]) - exp_len) / s
             al = D.arc_length()
@@ -702,6 +744,8 @@ def judge(ctx, obs, M=None, pres=None):
                 sym = "wrong_value"
             ctx.bad("length", sym, "total length differs from the sum of ring perimeters",
                     got=float(obs["length"]), want=exp_len, arc_length=al * s)
+        elif sl.get("rtol_total"):
+            _note_max(run, "near_one_max_relative_error_length_" + D.input_class, abs(obs["length"] - exp_len) / exp_len)
     if sl.get("spurs"):
         # corner pieces smaller than the merge distance: every closed path, polygon, area and length is
         # judged above; welded sub-resolution pieces may leave a vertex that is not of degree two, which
@@ -755,7 +799,7 @@ def summary(obs):
 def compare_fresh(ctx, got, want, D, s):
     """Differential: the mutated path against a freshly built one with the same geometry."""
     sl = ctx.slack or {}
-    rtol = sl.get("rtol", RTOL)
+    rtol = sl.get("rtol_total", sl.get("rtol", RTOL))
     arc = (ARC_RTOL * D.arc_area() + sl.get("area", 0.0)) * s * s
     if ctx.root_fired and ctx.loop_root:
         return
@@ -1003,6 +1047,8 @@ def execute(run, spec):
         if cond > 1e3:
             slack["rtol"] = RTOL + 2e-14 * cond
             slack["pos"] = slack.get("pos", 0.0) + 4e-16 * far / s
+        if tfc == "similarity_near_one" and cond <= 1e3:
+            slack["rtol_total"] = NEAR_ONE_RTOL
         ctx.slack = dict(slack)
         resolution_class = bool(gtags & {"size=extents_above_1e6", "place=far_from_origin"})
         ctx.loop_root = ctx.loop_root or resolution_class
@@ -1100,6 +1146,8 @@ def execute(run, spec):
     if final in ("dxf", "svg", "dict"):
         det, s = _mat_props(Macc)
         fslack = dict(slack)
+        # (the files store 12-13 digits: the tolerance of the exact totals after a step next to one is not theirs)
+        fslack.pop("rtol_total", None)
         if final == "dxf" and "place=far_from_origin" in gtags:
             # twelve significant digits of coordinates `far`: where the curve is read back is the format's
             # business (5e-12 relative per stored number, an arc is rebuilt from five of them) -
@@ -1305,6 +1353,39 @@ def _tiny_step(run, rnd):
     return step
 
 
+def _near_one_step(run, rnd):
+    """
+    A similarity next to the identity: factor 1 +- {1e-4 ... 1e-9}, with no / an equally small / an ordinary
+    rotation and offset, through every public way of applying it.  ALWAYS after reading the statement's
+    totals (and a few / all other values): the read - transform - read again history.
+    """
+    eps = rnd.choice(NEAR_ONE_EPS)
+    sc = 1.0 + eps if rnd.random() < 0.5 else 1.0 - eps
+    tag = "similarity_near_one:%g" % eps
+    r = rnd.random()
+    if r < 0.25:
+        step = _scale_step({"tf": tag}, sc, rnd)
+    else:
+        k = rnd.random()
+        a = 0.0 if k < 0.3 else (rnd.choice([-1, 1]) * eps if k < 0.5 else rnd.uniform(-math.pi, math.pi))
+        k = rnd.random()
+        off = [0.0, 0.0] if k < 0.3 else ([rnd.choice([-1, 1]) * eps, eps] if k < 0.5 else [rnd.uniform(-5, 5), rnd.uniform(-5, 5)])
+        M = np.eye(3)
+        M[:2, :2] = sc * np.array([[math.cos(a), -math.sin(a)], [math.sin(a), math.cos(a)]])
+        M[:2, 2] = off
+        step = {"tf": tag, "M": M.tolist(), "via": "vertices_assign" if r > 0.88 else "apply_transform"}
+    k = rnd.random()
+    if k < 0.3:
+        pre = list(READS)
+    else:
+        pre = rnd.sample(READS, rnd.randint(0, 4))
+        for t in (("area", "length") if k < 0.7 else (rnd.choice(["area", "length"]),)):
+            if t not in pre:
+                pre.append(t)
+    step["pre"] = pre
+    return step
+
+
 def _huge_step(run, rnd):
     """
     The change of units the other way (the same drawing in nanometres instead of metres): similarity
@@ -1452,6 +1533,21 @@ def workload(run):
                     # the enclosure tree is what is observed here / hundreds of entities: no histories
                     steps = []
                 spec["steps"] = steps
+            elif r < 0.62 and base.get("cls") in (None, "shallow") and len(base.get("arc_pieces") or ()) <= 2:
+                # read - transform - read again with similarities next to the identity: alone, after an
+                # ordinary step, or two in a row (factors that nearly cancel)
+                u = rnd.random()
+                steps = [_near_one_step(run, rnd)]
+                if u < 0.25:
+                    for _try in range(20):
+                        st = _random_step(run, rnd, mats)
+                        if not st["tf"].startswith("similarity:") or 0.4 <= float(st["tf"].split(":")[1]) <= 2.5:
+                            steps.insert(0, st)
+                            break
+                elif u < 0.45:
+                    steps.append(_near_one_step(run, rnd))
+                spec["steps"] = steps
+                run.count("histories_with_similarity_next_to_one")
             r2 = rnd.random()
             if last_class == "tiny":
                 # SVG stores absolute decimals (skipped at this size) and the 3D detour is not a form
